@@ -1,9 +1,11 @@
 """C10 - Lookups and queries inside a session see the session's own unflushed changes."""
 import session_check as chk
+import session_flags
 
 ID = 'C10'
 LEVEL = 'proof'
 PROPS = ['Props/C10.v', 'Findings/C10.v']
+GEN = [('Gen/SessionFlags.v', session_flags.generate)]     # Tie A: which shape three repaired / repairable pieces of core.py have (read from /repo on every run)
 TRUSTED = [
     'hand-written model coq/Model/Session*.v of pony/orm/core.py (SessionCache indexes / objects_to_save, Attribute.__set__/db_set, '
     'Set/SetInstance, Entity.__init__/_delete_/set/_db_set_/_save_*, EntityMeta._find_in_cache_/_fetch_objects), Stage 1 schema space',
